@@ -47,6 +47,19 @@ def rule_ckpt(ctx: Ctx) -> None:
     inv_guard = {"get_rank()==self._assignment.inv_worker(name,'A')", "self._assignment.inv_worker(name,'A')==get_rank()"}
     fw_guard = {"cast(GPTNeoXAssignment,self._assignment).factor_worker(name,'A')==get_rank()", "get_rank()==cast(GPTNeoXAssignment,self._assignment).factor_worker(name,'A')",
                 "self._assignment.factor_worker(name,'A')==get_rank()", "get_rank()==self._assignment.factor_worker(name,'A')"}
+    # ---- mode dispatch: with a checkpoint directory the factors go through the directory, whatever else the state holds
+    ctx.rule('COH-MODE', 'state_dict / load_state_dict use the directory mode exactly when factor_checkpoint_dir is set (and factors are wanted), independent of the state contents', floor=2)
+    for f, callee, allowed in ((sd, 'save_factors_to_dir', {'include_factors'}), (ld, 'load_factors_from_dir', set())):
+        cs = [c for c in p.calls_in(f) if isinstance(c.func, ast.Attribute) and c.func.attr == callee]
+        if len(cs) != 1:
+            ctx.violate('COH-MODE', f, callee, f'{f.name} calls {callee} {len(cs)} time(s); exactly one call under `factor_checkpoint_dir is not None` expected', f.node)
+            continue
+        ats = [(re.sub(r'\s+', '', norm(a_)), pol) for g_ in flow.guards(p, f, cs[0]) for a_, pol in conjuncts(g_.test, g_.polarity)]
+        dir_ok = ('self.factor_checkpoint_dirisnotNone', True) in ats or ('self.factor_checkpoint_dirisNone', False) in ats
+        extra = [(a_, pol) for a_, pol in ats if 'factor_checkpoint_dir' not in a_ and not (a_ in allowed and pol) and not (a_.startswith('not') and a_[3:] in allowed and not pol)]
+        ctx.check(dir_ok and not extra, 'COH-MODE', f, f'{f.name}: {callee}() exactly when a checkpoint directory is configured', callee,
+                  f'{f.name} reaches {callee}() under {ats}: with a checkpoint directory the per-layer files are the only copy of the factors, '
+                  f'so the call must depend on factor_checkpoint_dir alone (extra conditions: {extra})', cs[0])
     # ---- save side
     apps = [n for n in p.nodes(sd) if isinstance(n, ast.Call) and isinstance(n.func, ast.Attribute) and n.func.attr == 'append' and norm(n.func.value) == 'partition']
     for a in apps:
